@@ -34,8 +34,8 @@ TABLES = False
 RULE = ("operation sequences over the closed key family (int, str, a synthesised dataclass Foo) x {itself, NewType, TypeAliasType, "
         "string-valued TypeAliasType, Final[.], refs.forwardref(.)}: (a) ALL admissible sequences up to length L over the 6 family "
         "keys of one base type, for each base (18^n sequences of length n; quick L=4, thorough L=6); (a') ALL admissible sequences "
-        "up to length X over those 6 keys plus the 3 forward references naming the NewType / alias / string alias (27^n; quick X=3, "
-        "thorough X=5) - without these the order 'unwrapped form before forward reference' is unobservable; (b) ALL admissible "
+        "up to length X over those 6 keys plus the 3 forward references naming the NewType / alias / string alias (27^n; X=4) - "
+        "without these the order 'unwrapped form before forward reference' is unobservable; (b) ALL admissible "
         "sequences up to length M over all 18 family keys (54^n; quick M=3, thorough M=4); (c) random admissible sequences of "
         "length M+1..40 over the family, the extended keys and ForwardRef('Final', module='typing'). Admissible = insertions use "
         "fresh keys, `in` only for stored keys; the op at position p stores value p+1 / passes a unique default object (random "
@@ -548,16 +548,32 @@ def _compare_full(res, ops, real, model, where):
         res.count(f"{where}:oracle-ok")
 
 
+def _run_enum(jobs):
+    """The same enumeration jobs on the real TypeContext (forked children) and on the Lean driver (4 processes)."""
+    from concurrent.futures import ThreadPoolExecutor
+    real = iso.map_isolated(_enum_real, jobs, timeout=900.0)
+    nchunk = 4 if len(jobs) >= 8 else 1
+    chunks = [jobs[i::nchunk] for i in range(nchunk)]
+    with ThreadPoolExecutor(nchunk) as ex:
+        parts = list(ex.map(lambda ch: lean.drive([{"op": "ctx.enum", "keys": j["keys"], "prefix": j["prefix"], "depth": j["depth"]}
+                                                   for j in ch], timeout=1500) if ch else [], chunks))
+    model = [None] * len(jobs)
+    for ci, part in enumerate(parts):
+        for j, m in zip(range(ci, len(jobs), nchunk), part):
+            model[j] = m
+    return real, model
+
+
 def explore(ctx):
     res = Result()
     res.rule = RULE
     F = family()
     quick = ctx.tier == "quick"
     L = 4 if quick else 6          # exhaustive length, the 6 family keys of one base type
-    X = 3 if quick else 5          # exhaustive length, the 9 keys of one base type incl. the references naming its wrappers
+    X = 4                      # exhaustive length, the 9 keys of one base type incl. the references naming its wrappers
     M = 3 if quick else 4          # exhaustive length, all 18 family keys
     if ctx.scale > 1 and quick:
-        L, X, M = 5, 4, 3
+        L, X, M = 5, 5, 3
 
     # 0. the hypotheses of the theorem, on the real key functions
     check_key_laws(res)
@@ -570,34 +586,35 @@ def explore(ctx):
         for j in _enum_jobs(F.extended[b], X, 2 if X >= 4 else 1, label=f"extended:{b}", count="uses_extra"):
             jobs.append(j)
     jobs += _enum_jobs(F.family, M, 2 if M >= 4 else 1, label="all", count="multi_base")
-    real = iso.map_isolated(_enum_real, jobs, timeout=900.0)
-    chunks = [jobs[i::4] for i in range(4)]
-    from concurrent.futures import ThreadPoolExecutor
-    with ThreadPoolExecutor(4) as ex:
-        parts = list(ex.map(lambda ch: lean.drive([{"op": "ctx.enum", "keys": j["keys"], "prefix": j["prefix"], "depth": j["depth"]}
-                                                   for j in ch], timeout=1500) if ch else [], chunks))
-    model = [None] * len(jobs)
-    for ci, part in enumerate(parts):
-        for j, m in zip(range(ci, len(jobs), 4), part):
-            model[j] = m
     enumerated = nontrivial = 0
     per_label = {}
     mismatching = []
-    for job, r, m in zip(jobs, real, model):
-        if not isinstance(r, dict) or "crash" in r:
-            raise RuntimeError(f"harness: enumeration child failed: {r}")
-        if "bad" in m:
-            raise RuntimeError(f"driver: {m}")
-        enumerated += r["n"]
-        nontrivial += r["nt"]
-        per_label[job["label"]] = per_label.get(job["label"], 0) + r["n"]
-        if m["n"] != r["n"]:
-            raise RuntimeError(f"harness: enumeration trees differ in size ({r['n']} vs {m['n']}) for {job['prefix']}")
-        spec = m["spec"] if m.get("spec") is not None else m["concrete"]
-        for what, a, b_ in (("corr", r["real"], m["concrete"]), ("oracle", r["real"], r["oracle"]), ("leanspec", r["oracle"], spec)):
-            if a != b_:
-                res.count(f"enum:{what}:mismatching-nodes", sum(1 for x, y in zip(a, b_) if x != y))
-                mismatching.append((job, what, _first_diff(a, b_)))
+    # shallow part of every tree first; the deep part only if the shallow part is clean (a breaking change that already
+    # shows on sequences of length <= 2 is reported at once instead of after 10^5..10^8 failing nodes)
+    phases = [[j for j in jobs if not j["prefix"]], [j for j in jobs if j["prefix"]]]
+    for pi, pjobs in enumerate(phases):
+        if pi == 1 and mismatching:
+            res.count("enum:deep-part-skipped(jobs)", len(pjobs))
+            break
+        if not pjobs:
+            continue
+        real, model = _run_enum(pjobs)
+        for job, r, m in zip(pjobs, real, model):
+            if not isinstance(r, dict) or "crash" in r:
+                raise RuntimeError(f"harness: enumeration child failed: {r}")
+            if "bad" in m:
+                raise RuntimeError(f"driver: {m}")
+            enumerated += r["n"]
+            nontrivial += r["nt"]
+            per_label[job["label"]] = per_label.get(job["label"], 0) + r["n"]
+            if m["n"] != r["n"]:
+                raise RuntimeError(f"harness: enumeration trees differ in size ({r['n']} vs {m['n']}) for {job['prefix']}")
+            spec = m["spec"] if m.get("spec") is not None else m["concrete"]
+            for what, a, b_ in (("corr", r["real"], m["concrete"]), ("oracle", r["real"], r["oracle"]),
+                                ("leanspec", r["oracle"], spec)):
+                if a != b_:
+                    res.count(f"enum:{what}:mismatching-nodes", sum(1 for x, y in zip(a, b_) if x != y))
+                    mismatching.append((job, what, _first_diff(a, b_)))
     # reproduce the first few mismatches as fully observed sequences (shortest first)
     repro = []
     for job, what, i in mismatching:
@@ -627,6 +644,8 @@ def explore(ctx):
 
     # 2. random long sequences, fully observed
     n = ctx.n(3000, 40000)
+    if mismatching:
+        n = min(n, 500)
     seqs = [random_ops(ctx.rng, F, M + 1, 40) for _ in range(n)]
     for d in ctx.focus:
         if isinstance(d, dict) and "ops" in d and admissible(d["ops"]):
